@@ -172,3 +172,7 @@ def run(ctx: Ctx):
         ctx.lift_lemmas([("L_Adjugate", "ThreeTerm", True), ("L_Adjugate", "Falsified", False)])
     ctx.sample(recs[0]["r"])
     ctx.sample(recs[-1]["r"])
+    # ---- code -> spec: recorded calls on larger coordinates, validated by TLC against Trace_Ops.tla
+    from ..optrace import run_optrace
+
+    run_optrace(ctx, ['crossratio'])
